@@ -16,7 +16,7 @@ def run_one(sid, all_props=False):
                            stdout=subprocess.PIPE, stderr=subprocess.STDOUT, text=True)
         if r.returncode != 0:
             return {"id": sid, "status": "patch-failed", "out": r.stdout[-300:]}
-        props = [meta["property"]]
+        props = list(meta.get("checks") or [meta["property"]])
         if all_props:
             props = [json.loads(l)["id"] for l in open(os.path.join(VERIF, "properties.jsonl"))]
             props = [p for p in props if os.path.exists(os.path.join(VERIF, "rbv", "rules", p.lower() + ".py"))]
@@ -27,9 +27,11 @@ def run_one(sid, all_props=False):
                                stderr=subprocess.STDOUT, text=True)
             viol = [l.strip()[:200] for l in r.stdout.splitlines() if "[" in l and "]" in l and not l.startswith(("KNOWN", "VIOLATION", "PASS", "FAIL"))]
             res[p] = {"rc": r.returncode, "new": viol[:3]}
-        return {"id": sid, "property": meta["property"],
-                "status": "detected" if res[meta["property"]]["rc"] == 1 else ("check-error" if res[meta["property"]]["rc"] == 2 else "missed"),
-                "checks": res}
+        wanted = meta.get("checks") or [meta["property"]]
+        rcs = [res[p]["rc"] for p in wanted]
+        status = "detected" if 1 in rcs else ("check-error" if 2 in rcs else "missed")
+        return {"id": sid, "property": meta["property"], "status": status, "checks": res,
+                "by": [p for p in wanted if res[p]["rc"] == 1]}
     finally:
         shutil.rmtree(tmp, ignore_errors=True)
 
@@ -40,7 +42,10 @@ if __name__ == "__main__":
     ids = args or sorted(os.listdir(os.path.join(VERIF, "seeded")))
     with ThreadPoolExecutor(max_workers=4) as ex:
         for r in ex.map(lambda s: run_one(s, allp), ids):
-            own = r.get("checks", {}).get(r.get("property"), {})
+            own = {}
+            for p in r.get("by") or [r.get("property")]:
+                own = r.get("checks", {}).get(p, {})
+                break
             print(r["id"], r["status"], "|", "; ".join(own.get("new", []))[:230])
             if allp:
                 others = [p for p, v in r.get("checks", {}).items() if v["rc"] == 1 and p != r["property"]]
